@@ -325,8 +325,10 @@ def run_property(prop_id, tier, seed, only_shards=None, procs=None):
     for i, s in enumerate(specs):
         s.setdefault("seed_offset", i)
     procs = procs or min(16, max(1, sum(s.get("procs", 1) for s in specs)))
-    nproc = max(1, min(16 // max(1, max(s.get("procs", 1) for s in specs)), len(specs)))
-    jobs = [(prop_id, s, seed * 1000 + s["seed_offset"], tier, "explore", None) for s in specs]
+    nproc = max(1, min(16, len(specs)))
+    # long shards first so the pool drains evenly
+    specs_sorted = sorted(specs, key=lambda s: -s.get("weight", s.get("examples", 100) * s.get("procs", 1)))
+    jobs = [(prop_id, s, seed * 1000 + s["seed_offset"], tier, "explore", None) for s in specs_sorted]
     results = []
     errors = []
     with _pool(nproc) as pool:
@@ -343,6 +345,9 @@ def run_property(prop_id, tier, seed, only_shards=None, procs=None):
     results.sort(key=lambda s: s["name"])
     spec_by_name = {s["name"]: s for s in specs}
 
+    if os.environ.get("SYNVERIF_DUMP"):
+        with open(os.environ["SYNVERIF_DUMP"], "w") as fh:
+            json.dump([f for s in results for f in s["failures"]], fh, indent=1)
     known = load_known(prop_id)
     known_hits = collections.OrderedDict()
     buckets = collections.OrderedDict()
@@ -391,6 +396,7 @@ def run_property(prop_id, tier, seed, only_shards=None, procs=None):
             print("UNCONFIRMED property=%s bucket=%s (observed %d, not reproduced on replay)" % (prop_id, bucket, len(fs)))
             continue
         cand, unk = confirmed
+        unk = sorted(unk, key=lambda g: g["bucket"] != bucket)
         os.makedirs(os.path.join(ROOT, "replays", prop_id), exist_ok=True)
         safe = "".join(c if c.isalnum() or c in "-_." else "_" for c in bucket)[:80]
         path = os.path.join("replays", prop_id, safe + ".json")
